@@ -658,8 +658,25 @@ def _np_result_type(it, *args):
        "(subok=True keeps the subclass, units copied by __array_finalize__)")
 def _np_array(it, x, *a, **kw):
     x = const_float(x)
+    kw = dict(kw)
+    if a:
+        if len(a) > 1 or "dtype" in kw:
+            raise Unsupported("np.array positional arguments")
+        kw["dtype"] = a[0]
+    for k_ in kw:
+        if k_ not in ("dtype", "copy", "subok"):
+            raise Unsupported("np.array keyword %s" % k_)
+    if is_array(x) and "copy" in kw and (kw["copy"] is None or kw["copy"] is False):
+        # copy=None (copy only if needed) / copy=False: np.asarray's sharing semantics
+        res = _np_asarray(it, x, dtype=kw.get("dtype"))
+        if kw.get("subok") and is_unyt_array(x):
+            return _rewrap(it, res, x)
+        return res
     if is_array(x):
-        res = new_array(it, arr_elem(x), arr_kind(x), arr_itemsize(x), x, "array_copy")
+        if kw.get("dtype") is not None:
+            res = cast_array(it, x, np_dtype(it, kw["dtype"]), "array_copy")
+        else:
+            res = new_array(it, arr_elem(x), arr_kind(x), arr_itemsize(x), x, "array_copy")
         if kw.get("subok") and is_unyt_array(x):
             return _view(it, res)(it, ClassRef(x.cls)) if False else _rewrap(it, res, x)
         return res
